@@ -742,6 +742,76 @@ func gridSources(full bool) []*Source {
 	return out
 }
 
+// shallowSources: every block-creating construct ALONE (and every pair nested) in code that needs as little evaluation
+// stack as Python allows - bodies of one shallow statement, at module level and as the only statement of a function.
+// The declared stack size is tight exactly there: an enclosing or preceding block, or a body statement that needs two
+// slots, leaves slack that hides an under-estimate of one slot (found by an independently seeded change: SETUP_WITH's
+// stack effect lowered by one only shows for `with q: f()` whose __exit__ swallows an exception).  Context managers
+// come in the three kinds that matter to WITH_CLEANUP: __exit__ false, __exit__ true (swallows), __enter__ value used.
+func shallowSources() []*Source {
+	const head = "class CM:\n    def __init__(self, s):\n        self.s = s\n    def __enter__(self):\n        return self\n    def __exit__(self, t, v, tb):\n        return self.s\ndef f():\n    pass\ndef boom():\n    raise KeyError\nx = 0\nq = CM(False)\nqs = CM(True)\n"
+	type cons struct {
+		name string
+		open func(in string, body string) string
+	}
+	conses := []cons{
+		{"with", func(in, b string) string { return in + "with q:\n" + b }},
+		{"withswallow", func(in, b string) string { return in + "with qs:\n" + b }},
+		{"withas", func(in, b string) string { return in + "with qs as w:\n" + b }},
+		{"with2", func(in, b string) string { return in + "with q, qs:\n" + b }},
+		{"tryfinally", func(in, b string) string { return in + "try:\n" + b + in + "finally:\n" + in + "    pass\n" }},
+		{"tryexcept", func(in, b string) string { return in + "try:\n" + b + in + "except KeyError:\n" + in + "    pass\n" }},
+		{"tryexceptas", func(in, b string) string {
+			return in + "try:\n" + b + in + "except KeyError as e:\n" + in + "    pass\n"
+		}},
+		{"trybare", func(in, b string) string { return in + "try:\n" + b + in + "except:\n" + in + "    pass\n" }},
+		{"tryexceptelse", func(in, b string) string {
+			return in + "try:\n" + in + "    pass\n" + in + "except KeyError:\n" + in + "    pass\n" + in + "else:\n" + b
+		}},
+		{"tryexceptfinally", func(in, b string) string {
+			return in + "try:\n" + b + in + "except KeyError:\n" + in + "    pass\n" + in + "finally:\n" + in + "    pass\n"
+		}},
+		{"handler", func(in, b string) string { return in + "try:\n" + in + "    boom()\n" + in + "except KeyError:\n" + b }},
+		{"finalbody", func(in, b string) string { return in + "try:\n" + in + "    pass\n" + in + "finally:\n" + b }},
+		{"for", func(in, b string) string { return in + "for i in (1, 2):\n" + b }},
+		{"forelse", func(in, b string) string { return in + "for i in ():\n" + in + "    pass\n" + in + "else:\n" + b }},
+		{"while", func(in, b string) string { return in + "while x:\n" + b }},
+	}
+	bodies := []string{"pass", "x", "f()", "boom()", "raise KeyError", "x = 1", "return", "del x"}
+	// the constructs that also appear as the INNER one of a nested pair
+	inner := map[string]bool{"with": true, "withswallow": true, "tryfinally": true, "tryexcept": true, "for": true}
+	var out []*Source
+	emit := func(name, text string, fn bool) {
+		var b strings.Builder
+		b.WriteString(head)
+		if fn {
+			b.WriteString("def g():\n" + text + "try:\n    g()\nexcept KeyError:\n    pass\nexcept NameError:\n    pass\n")
+		} else {
+			b.WriteString("try:\n" + text + "except KeyError:\n    pass\nexcept NameError:\n    pass\n")
+		}
+		out = append(out, &Source{Name: name, Origin: "shallow", Text: b.String(), Run: true, Class: "shallow"})
+	}
+	for _, c1 := range conses {
+		for bi, body := range bodies {
+			if body == "return" {
+				emit(fmt.Sprintf("shallow_fn_%s_%d.py", c1.name, bi), c1.open("    ", "        "+body+"\n"), true)
+				continue
+			}
+			emit(fmt.Sprintf("shallow_fn_%s_%d.py", c1.name, bi), c1.open("    ", "        "+body+"\n"), true)
+			// at module level the construct is the first block of the code object only without the guarding try: run it bare too
+			out = append(out, &Source{Name: fmt.Sprintf("shallow_mod_%s_%d.py", c1.name, bi), Origin: "shallow",
+				Text: head + c1.open("", "    "+body+"\n"), Run: true, Class: "shallow"})
+			for _, c2 := range conses {
+				if !inner[c2.name] {
+					continue
+				}
+				emit(fmt.Sprintf("shallow_fn_%s_%s_%d.py", c1.name, c2.name, bi), c1.open("    ", c2.open("        ", "            "+body+"\n")), true)
+			}
+		}
+	}
+	return out
+}
+
 // probeSources: fixed programs for corners the random families reach rarely.
 func probeSources(env *common.Env) []*Source {
 	var out []*Source
